@@ -6,6 +6,7 @@ import (
 	"context"
 	"fmt"
 	"math/rand"
+	"strings"
 	"sync"
 	"sync/atomic"
 	"testing"
@@ -434,6 +435,61 @@ func TestVerifC02(t *testing.T) {
 		}
 		if h == 0 {
 			rep.Sample(map[string]interface{}{"random_history": tag, "arrivals": len(inter), "first_arrivals": fmt.Sprint(inter[:minInt(12, len(inter))])})
+		}
+	}
+	// ---- registration by a caller that goes away: the context given to RegisterChainKey is cancelled before the call, or
+	// after N accesses of the key datastore during it. Whatever the call answers, the window the statement promises must be
+	// there once a registration has been acknowledged (err == nil), or after a later registration with a live context
+	for _, W := range []int{4, 100} {
+		for _, N := range []int{0, 1, 2, W / 2, W - 1, 3 * W} {
+			recv := newVStore("R", W, 2)
+			sc, err := newC02Scenario(ctx, rng, recv, W, 2*W+2, 1)
+			if err != nil {
+				rep.Inconclusivef("scenario: %v", err)
+				return
+			}
+			tag := fmt.Sprintf("cancelled-registration W=%d cancel-after=%d-accesses", W, N)
+			cctx, cancel := context.WithCancel(ctx)
+			var seen atomic.Int64
+			if N == 0 {
+				cancel()
+			}
+			recv.ds.Perturb = func(op, key string) {
+				if strings.HasSuffix(op, "-done") {
+					return
+				}
+				if seen.Add(1) == int64(N) {
+					cancel()
+				}
+			}
+			rerr := recv.ss.RegisterChainKey(cctx, sc.g, sc.sender.devicePK(sc.g), sc.ann)
+			recv.ds.Perturb = nil
+			cancel()
+			if rerr != nil {
+				rep.Count("registrations_refused_for_a_cancelled_caller", 1)
+				if err := recv.ss.RegisterChainKey(ctx, sc.g, sc.sender.devicePK(sc.g), sc.ann); err != nil {
+					rep.Violate("C02/registration-impossible-after-cancelled-attempt", fmt.Sprintf("after a registration abandoned by its caller, registering with a live context fails: %v", err), tag)
+					continue
+				}
+			} else {
+				rep.Count("registrations_completed_for_a_cancelled_caller", 1)
+			}
+			// announcement taken at counter 1: messages 2..1+W are promised; they arrive newest first
+			rep.Case(tag)
+			okAll := true
+			for k := 1 + W; k >= 2; k-- {
+				m := sc.msgs[k-1]
+				res := recv.openEnv(ctx, sc.g, m.data, m.id)
+				rep.Eval(1)
+				if res.err != nil || !sameBytes(res.payload, m.payload) {
+					rep.Violate("C02/not-openable-in-window/after-cancelled-registration", fmt.Sprintf("open(%d) failed although the chain key was registered at counter 1 with window %d (registration made with a context cancelled after %d datastore accesses returned %v): %v", k, W, N, rerr, res.err), tag)
+					okAll = false
+					break
+				}
+			}
+			if okAll {
+				rep.Count("windows_complete_after_cancelled_registration", 1)
+			}
 		}
 	}
 	// the tree nodes are distinct by construction; account for them without hashing millions of strings
